@@ -979,10 +979,11 @@ def _mask(sig, num_args, hide_args, hide_kwargs,
                 'Named parameter {0!r} not found in signature: {1}'
                 .format(kwarg_name, sig))
         elif partial_mode:
-            kwoargs[kwarg_name] = UpgradedParameter(
-                kwarg_name, _util.funcsigs.Parameter.KEYWORD_ONLY,
-                default=named_args[kwarg_name])
-            src[kwarg_name] = [partial_obj]
+            if kwarg_name not in sig.parameters:
+                kwoargs[kwarg_name] = UpgradedParameter(
+                    kwarg_name, _util.funcsigs.Parameter.KEYWORD_ONLY,
+                    default=named_args[kwarg_name])
+                src[kwarg_name] = [partial_obj]
         consumed_names.add(kwarg_name)
 
     if hide_kwargs or hide_varkwargs:
